@@ -147,3 +147,7 @@ def real_child():
     for p in mp.active_children():
         p.kill()
     print(json.dumps({'verdicts': out, 'children_left': left}))
+
+
+def replay_one(case, violation):
+    return Q.replay_schedule(tuple(case['vec']), CONFIGS[case['cfg']], ('drain',), violation['schedule'], ('verdicts',))
